@@ -16,8 +16,10 @@
   Restated without world hypotheses: `C20_removal_terminates_solver` (any solver),
   `C20_adjusted_sound_gso/_chol`, `C20_named_unknowns_dependent_gso/_chol`; negative statement for svd
   (`C20_named_unknowns_dependent_svd_false`, finding F7-svd).  Envelope: the solver-level facts are in
-  `Props/C20/Env.lean` in PROCESSING order; transporting them to `Sound` needs the `OrdOK` equivalence —
-  not done, see notes/reports/C20.md.
+  `Props/C20/Env.lean` in PROCESSING order; they are transported to `Sound` through the `OrdOK` equivalence in
+  `Lemmas/NetWorldEnv.lean` (`obsEnv_sound`), and the envelope and svd instances of the theorems below are in
+  `Props/C20/WorldEnv.lean` (`C20_world_env_hypotheses`, `C20_adjusted_sound_env`,
+  `C20_named_unknowns_dependent_env`, `C20_world_svd_hypotheses`, `C20_adjusted_sound_svd`).
 
   Non-vacuity: `free1World true` does NOT satisfy `RefusalFlags` (it "refuses" on configurations without
   unknowns, which `vyrovnani_` never asks) — `C20_free1World_not_RefusalFlags`; the corrected
